@@ -156,8 +156,9 @@ def handleConc (progs : List (List Op)) (obs : List String) : String × String :
       else
         let m := Lin.linearizable accModel (fun s => s.watchers.length) Health.init tasks
         let v := Lin.linearizable accSpec Spec.Health.numWatches [] tasks
-        (if m then String.intercalate " " obs else "not-linearizable",
-         if v then "ok" else "fail:not-linearizable")
+        -- a search that ran out of budget decides nothing (neither a disagreement nor a failure)
+        (if m == .no then "not-linearizable" else String.intercalate " " obs,
+         if v == .no then "fail:not-linearizable" else "ok")
 
 def handle (case obs : List String) : String × String :=
   match case with
